@@ -243,7 +243,7 @@ func (c *Ctx) c19Server(rel, name string) {
 				if !isRet {
 					return false
 				}
-				b, isC := eng.ConstBool(ret.Results[0])
+				b, isC := eng.ConstBool(eng.ReturnResults(ret)[0])
 				return !(isC && b)
 			}, nil) == nil
 			othersFalse := true
@@ -252,7 +252,7 @@ func (c *Ctx) c19Server(rel, name string) {
 				if !isRet || arm.Dominates(ret.Block()) {
 					return
 				}
-				if b, isC := eng.ConstBool(ret.Results[0]); !isC || b {
+				if b, isC := eng.ConstBool(eng.ReturnResults(ret)[0]); !isC || b {
 					othersFalse = false
 				}
 			})
@@ -462,6 +462,162 @@ func (c *Ctx) c19Main() {
 			r.Ok("C19/DRAIN", "main:"+w.name, p.InstrPos(startCall), "every path from services.Start to return calls %s", w.name)
 		}
 	}
+	// the services' context is cancelled before anything waits for them: Drain only waits for
+	// sessions that exist, so with listeners still accepting (and the hub and the scanner still
+	// running) new sessions start behind it and Join never returns
+	r.Rule("C19/DRAIN/cancel-first", "in main every path from services.Start to a Drain/Join call passes a call of the cancel function of the context the services run under, or the observed cancellation (Done) of that context or of an ancestor of it")
+	{
+		var ctxV ssa.Value
+		// the call of Services.Start itself: in main, or in the helper of the main package that
+		// main calls to start the services
+		var realStart *ssa.Call
+		for fn := range p.SyncReach(mainFn) {
+			if eng.FuncPkgPath(fn) != eng.FuncPkgPath(mainFn) {
+				continue
+			}
+			eng.EachInstr(fn, func(in ssa.Instruction) {
+				if call, ok := in.(*ssa.Call); ok && eng.StaticCallee(call.Common()) == svcStart {
+					realStart = call
+				}
+			})
+		}
+		if realStart != nil {
+			for _, a := range realStart.Call.Args {
+				if n, isN := a.Type().(*types.Named); isN && n.Obj().Pkg() != nil && n.Obj().Pkg().Path() == "context" && n.Obj().Name() == "Context" {
+					ctxV = resolveCell(a)
+				}
+			}
+		}
+		cancels := map[ssa.Value]bool{}
+		ctxs := map[ssa.Value]bool{}
+		for v, depth := ctxV, 0; v != nil && depth < 4; depth++ {
+			ctxs[v] = true
+			call, idx := eng.CallAndIndex(v)
+			if call == nil || idx != 0 {
+				break
+			}
+			name := eng.CalleeName(call.Common())
+			if !strings.HasPrefix(name, "context.With") && name != "os/signal.NotifyContext" {
+				break
+			}
+			if cv := extractOf(call, 1); cv != nil {
+				cancels[cv] = true
+				for _, al := range eng.ValueAliases(cv) {
+					cancels[al] = true
+				}
+			}
+			for _, al := range eng.ValueAliases(v) {
+				ctxs[al] = true
+			}
+			if len(call.Call.Args) == 0 {
+				break
+			}
+			v = resolveCell(call.Call.Args[0])
+		}
+		// handed back to main by the starting helper
+		if realStart != nil && realStart.Parent() != mainFn {
+			if sc, ok := startCall.(*ssa.Call); ok && eng.StaticCallee(sc.Common()) == realStart.Parent() {
+				eng.EachInstr(realStart.Parent(), func(in ssa.Instruction) {
+					ret, ok := in.(*ssa.Return)
+					if !ok {
+						return
+					}
+					for i, rv := range eng.ReturnResults(ret) {
+						var mv ssa.Value
+						if len(eng.ReturnResults(ret)) == 1 {
+							mv = sc
+						} else {
+							mv = extractOf(sc, i)
+						}
+						if mv == nil {
+							continue
+						}
+						rv = resolveCell(rv)
+						if cancels[rv] {
+							cancels[mv] = true
+							for _, al := range eng.ValueAliases(mv) {
+								cancels[al] = true
+							}
+						}
+						if ctxs[rv] {
+							ctxs[mv] = true
+							for _, al := range eng.ValueAliases(mv) {
+								ctxs[al] = true
+							}
+						}
+					}
+				})
+			}
+		}
+		isDoneOf := func(v ssa.Value) bool {
+			call, ok := v.(*ssa.Call)
+			if !ok || !call.Call.IsInvoke() || call.Call.Method.Name() != "Done" {
+				return false
+			}
+			return ctxs[call.Call.Value] || ctxs[resolveCell(call.Call.Value)]
+		}
+		// blocks in which a cancellation has been observed
+		observed := map[*ssa.BasicBlock]bool{}
+		eng.EachInstr(mainFn, func(in ssa.Instruction) {
+			if sel, ok := in.(*ssa.Select); ok {
+				for i, st := range sel.States {
+					if isDoneOf(st.Chan) {
+						if arm := eng.SelectArm(sel, i); arm != nil {
+							for _, b := range mainFn.Blocks {
+								if arm.Dominates(b) {
+									observed[b] = true
+								}
+							}
+						}
+					}
+				}
+			}
+		})
+		isCancel := func(in ssa.Instruction) bool {
+			if observed[in.Block()] {
+				return true
+			}
+			switch x := in.(type) {
+			case *ssa.Call:
+				if !x.Call.IsInvoke() && (cancels[x.Call.Value] || cancels[resolveCell(x.Call.Value)]) {
+					return true
+				}
+			case *ssa.UnOp:
+				if x.Op == token.ARROW && isDoneOf(x.X) {
+					return true
+				}
+			}
+			return false
+		}
+		isWait := func(in ssa.Instruction) bool {
+			call, ok := in.(*ssa.Call)
+			if !ok {
+				return false
+			}
+			g := eng.StaticCallee(call.Common())
+			if g == nil {
+				return false
+			}
+			if g == sd || g == pd || g == join {
+				return true
+			}
+			if eng.FuncPkgPath(g) == eng.FuncPkgPath(mainFn) {
+				reach := p.SyncReach(g)
+				return reach[sd] || reach[pd] || reach[join]
+			}
+			return false
+		}
+		switch {
+		case ctxV == nil || len(cancels) == 0:
+			r.Undecided("C19/DRAIN/cancel-first", "main", p.InstrPos(startCall), "cannot identify the context the services are started with, or its cancel function")
+		default:
+			if hit := eng.ReachPhiAware(startCall, isWait, isCancel); hit != nil {
+				r.Bad("C19/DRAIN/cancel-first", "main", p.InstrPos(hit), "main reaches %s without having cancelled the services' context on that path (e.g. the shutdown triggered by a failed service rather than a signal): the listeners keep accepting while Drain runs, sessions started behind it are cut off, and the retention scanner's Join blocks until the forced exit", eng.CalleeName(hit.(*ssa.Call).Common()))
+			} else {
+				r.Ok("C19/DRAIN/cancel-first", "main", p.InstrPos(startCall), "every path from services.Start to Drain/Join cancels the services' context first")
+			}
+		}
+	}
 	// Services.Start starts the hub, both servers and the scanner as goroutines
 	gos := 0
 	eng.EachInstr(svcStart, func(in ssa.Instruction) {
@@ -572,7 +728,7 @@ func (c *Ctx) retentionCancel(rule string) {
 						if !ok {
 							return false
 						}
-						b, isC := eng.ConstBool(ret.Results[0])
+						b, isC := eng.ConstBool(eng.ReturnResults(ret)[0])
 						return !(isC && !b)
 					}, nil)
 					if bad != nil {
@@ -685,10 +841,10 @@ func (c *Ctx) retentionCancel(rule string) {
 		nVis++
 		cont := func(in ssa.Instruction) bool {
 			ret, ok := in.(*ssa.Return)
-			if !ok || len(ret.Results) != 1 {
+			if !ok || len(eng.ReturnResults(ret)) != 1 {
 				return false
 			}
-			b, isC := eng.ConstBool(ret.Results[0])
+			b, isC := eng.ConstBool(eng.ReturnResults(ret)[0])
 			return !(isC && !b)
 		}
 		if miss := (&eng.Search{Target: cont, Avoid: observes, Deep: true}).FromEntry(fn); miss != nil {
